@@ -11,12 +11,19 @@ _T = ["decode_decimal_spec", "decimal_u32_spec", "decimal_u32_exact", "u32_to_st
       "verify_malformed", "decode_result_consistent", "str_format", "str_limits", "pickparams_spec", "scrypt_limits_spec"]
 THEOREMS = vcore.theorems_in("SodiumModel/Properties/C08.lean", _T, "Sodium.C08")
 IMPORTS = ["SodiumModel.Properties.C08"] if THEOREMS else ["SodiumModel.Spec.Argon2"]
+# the reference Argon2 core (argon2-core.c, argon2-fill-block-ref.c, blamka-round-ref.h, blake2b-long.c, argon2.c) in the C's structure = RFC 9106 for every in-range input and any number of lanes
+THEOREMS = THEOREMS + vcore.theorems_in("SodiumModel/Properties/C08Core.lean", ['fBlaMka_spec', 'fBlaMka_nat', 'G_spec', 'BLAKE2_ROUND_NOMSG_spec', 'round_at_spec', 'fill_block_indices', 'fill_block_spec', 'fill_block_with_xor_spec', 'xor_block_spec', 'index_alpha_spec', 'index_alpha_bounds', 'generate_addresses_spec', 'addressing_schedule', 'fill_segment_spec', 'fill_segment_in_bounds', 'fill_memory_blocks_spec', 'rel_getBlock', 'blake2b_long_spec', 'load_store_block_spec', 'initial_hash_spec', 'fill_first_blocks_spec', 'finalize_spec', 'blake2b_returns_outlen', 'argon2_ctx_core_spec', 'argon2_hash_ref_model_spec', 'argon2_hash_spec', 'crypto_pwhash_spec', 'crypto_pwhash_str_spec', 'crypto_pwhash_str_verify_spec', 'crypto_pwhash_is_rfc9106', 'driver_prims_eq'], "Sodium.C08Core")
+# the reference scrypt code (nosse smix / blockmix / salsa20_8 / integerify, PBKDF2-SHA-256): components = RFC 7914 / RFC 8018 (the le32 / p-loop glue of escrypt_kdf_nosse is tied by the correspondence)
+THEOREMS = THEOREMS + vcore.theorems_in("SodiumModel/Properties/C08Scrypt.lean", ['salsa20_8_eq_spec', 'blockmix_salsa8_eq_spec', 'blockmix_salsa8_scratch', 'integerify_eq_spec', 'smix_loops_eq_spec', 'pbkdf2_eq_spec', 'pbkdf2_sha256_eq_spec', 'kdf_nosse_rejects', 'kdf_guards', 'power_of_two_test'], "Sodium.C08Scrypt")
+IMPORTS = IMPORTS + ["SodiumModel.Properties.C08Core", "SodiumModel.Properties.C08Scrypt"]
+FINGERPRINTS = "C08"     # Tie B: pinned source text of the transcribed Argon2 / scrypt reference code (tools/fingerprint.py)
 RULE = ("raw hashing for both Argon2 types through the generic and the specific entry points: output lengths 16..1000, password lengths 0..300, every memory limit 8192..16384 step 512 (block rounding), "
         "ops 1..4, all limit boundaries and their precedence (EINVAL / EFBIG); hash strings produced under a scripted salt source; verify and needs_rehash on produced strings and on every mutation class: "
         "each character replaced, truncation at every position, junk appended, parameters rewritten (m / t / p / v, leading zeros, signs, overflow to 2^32 and 2^64, missing / duplicated / reordered fields), "
         "Base64 fields with padding, wrong alphabet, whitespace, NUL, bytes >= 0x80, salt / tag length limits, the 127 / 128-byte needs_rehash edge, wrong type prefix through each verifier; scrypt: "
         "raw / ll (RFC 7914 vectors, N r p combinations), $7$ strings produced and mutated the same way; each on the AVX-512 / AVX2 / SSSE3 / reference Argon2 fill code and the SSE2 / portable scrypt code")
-ASSUMPTIONS = ["the Argon2 and scrypt cores are parameters of the model (`Prims`); the driver instantiates them with the executable RFC 9106 / RFC 7914 specifications: core = RFC is translation validation on the generated inputs, per backend",
+ASSUMPTIONS = ["the Argon2 and scrypt cores are parameters of the string-layer model (`Prims`); the driver instantiates them with the C-structured models of the REFERENCE cores, proved equal to RFC 9106 (C08Core, end to end) "
+               "and, component-wise, to RFC 7914 / RFC 8018 (C08Scrypt); the AVX-512 / AVX2 / SSSE3 Argon2 fill code and the SSE2 scrypt code are compared with these models through the correspondence, per backend",
                "allocation failure paths (memlimit up to 4 TiB, huge scrypt r*N) are under C20, not modelled here; outlen > 2^32-1 and passwords > 4 GiB are proved in limits_spec but cannot be driven through the harness",
                "scrypt $7$ strings: round trip shown on instances, not proved in general; scrypt clamps out-of-range opslimit / memlimit instead of rejecting them (scrypt_limits_spec states what the code does)"]
 
